@@ -83,6 +83,7 @@ fn main() {
             println!("TSAN-LANE-DONE jobs={} iterations={} violations={}", n, iters, bad);
             std::process::exit(0)
         }
+        "child-dtor" => std::process::exit(fam_path::child_dtor(a[2].parse().unwrap())),
         "child-threads" => std::process::exit(fam_path::child_threads(a[2].parse().unwrap(), a[3].parse().unwrap())),
         "shrink" => std::process::exit(props::shrink(&a[2])),
         "selftest" => std::process::exit(props::selftest()),
